@@ -34,6 +34,8 @@ module Nat :
 
   val ltb : nat -> nat -> bool
 
+  val max : nat -> nat -> nat
+
   val even : nat -> bool
 
   val odd : nat -> bool
@@ -782,3 +784,79 @@ val tab_endasm : z list
 val hash_endasm : z list
 
 val ends_plain : z list -> z list -> bool
+
+type lkind =
+| KWs
+| KWord
+| KNumber
+| KPunct
+| KStr
+| KChar
+| KCmtLine
+| KCmtBlock
+| KDirHash
+| KDirEnd
+
+type tok = { tk : lkind; tt : z list; tdir : bool }
+
+type lstate = { bol : bool; in_dir : bool; dir_pos : nat; want_hdr : bool }
+
+val st0 : lstate
+
+val is_blank0 : z -> bool
+
+val is_eol0 : z -> bool
+
+val is_digit0 : z -> bool
+
+val is_alpha : z -> bool
+
+val is_idstart : z -> bool
+
+val is_idchar : z -> bool
+
+val span : (z -> bool) -> z list -> nat
+
+val eol_len : z list -> nat
+
+val splice_len : z list -> nat
+
+val line_cmt_len : z list -> nat
+
+val blk_len : z list -> nat
+
+val quoted_len : z -> z list -> nat
+
+val prefix_of0 : z list -> z list -> bool
+
+val find_end : z list -> z list -> nat
+
+val raw_delim_char : z -> bool
+
+val raw_len : z list -> nat option
+
+val num_len : z -> z list -> nat
+
+val puncts : z list list
+
+val first_punct : z list list -> z list -> nat
+
+val w_include : z list
+
+val w_import : z list
+
+val w_include_next : z list
+
+val list_eqb : z list -> z list -> bool
+
+val str_prefix : z list -> bool
+
+val raw_prefix : z list -> bool
+
+val after_tok : lstate -> bool -> lstate
+
+val scan : lstate -> z list -> (lkind * nat) * lstate
+
+val lex_all : nat -> lstate -> z list -> tok list
+
+val lex : z list -> tok list
